@@ -22,14 +22,24 @@
    m_ReturnValue = returnValue, runs the thread and the scheduler, and then adds
    std::move(returnValue) to the record unless it is None; `end v` = setPointerRef through
    m_ReturnValue, `end` / falling off the end = ClearPointer, then the VM (and m_ReturnValue)
-   is destroyed; a deleted thread only destroys m_ReturnValue.  Host operations on records:
+   is destroyed; the VM's destructor runs m_ReturnValue.ClearPointer() once more, so a thread that is
+   deleted before its end (or dies in Reset) resolves its pending result to NIL for every holder,
+   exactly as `end` without a value does.  Host operations on records:
    Event copy (copy construction of every cell), growth of the container (Resize uses
    move_if_noexcept: ScriptVariable's move constructor is not noexcept, so every cell is copy
    constructed and the old one destroyed), Event move (cells untouched), destruction,
    copy / move assignment between result cells.
+   Results that are pending results: a thread may start a sub-thread with `local.r = thread sub`
+   (Listener::CreateReturnThread: a temporary with newPointer, the sub-thread's m_ReturnValue =
+   temporary, the sub-thread runs nested until it suspends or ends, the temporary's value ends up
+   in the variable local.r) and end with `end local.r`.  When local.r still holds the sub-thread's
+   pending pointer q, setValueRef hands a Pointer-typed value to the holders: every holder's type
+   is set to None and every holder except the ending VM's m_ReturnValue is assigned (and thereby
+   registered with q); m_ReturnValue stays None (two-holder fast path and general loop alike).
+   The thread's variables (local.r) die with the thread.
    Part 3, the scheduler [sched], generic in the heap: threads are abstract programs (timed
-   waits, pause + a helper thread that sends `wait 0` to the paused thread after d ms, final
-   statement); timed waits follow the due-time specification that unit C06 proves equal to the
+   waits, pause + a helper thread that sends `wait 0` to the paused thread after d ms, at most one
+   sub-thread, final statement); timed waits follow the due-time specification that unit C06 proves equal to the
    code-level con::timer (resume the waiter minimal in (due, registration) while due <= frame
    time; `wait` registers frame time + d).
    The observation of every host operation: what the call reported (label not found / thread
@@ -38,8 +48,10 @@
    [ohang] (resume loop out of fuel) and [oub] that the real engine can only show as a hang
    or a crash.
    Abstracted: payload memory of values (strings, vectors, arrays are opaque data (kind, index));
-   the fast path of operator= for simple types (same effect); the argument cells of a record
-   carry no identity (they never hold the Pointer type); a script instance is counted as
+   the fast path of operator= for simple types (same effect); the command events and VM
+   stack slots through which a value travels (the `end` command's argument, the result of
+   `thread`) are not cells of the model - they are created and destroyed around the operation;
+   the argument cells of a record carry no identity (they never hold the Pointer type); a script instance is counted as
    gone when its main thread is gone (its helper ends within the same host operation). *)
 From Coq Require Import NArith List Bool.
 From Morfuse Require Import Base.Arr.
@@ -52,25 +64,28 @@ Inductive dval := DNil | DData (k i : N).         (* NIL | a value of kind k, nu
 Inductive val := VD (d : dval) | VPtr (p : N).    (* plain data | type Pointer to ScriptPointer p *)
 
 Inductive step := SWait (d : N) | SPause (d : N).
-Inductive res := RLit (d : dval) | RArg (j : nat).          (* end <literal> | end local.p<j> *)
+Inductive res := RLit (d : dval) | RArg (j : nat) | RLocal.   (* end <literal> | end local.p<j> | end local.r *)
 Inductive fin :=
 | FEnd (r : res) | FEndNone | FFall
 | FKill (d : N)          (* pause; a helper deletes the thread after d *)
 | FKillTimed (d : N)     (* wait 50; a helper deletes the thread after d *)
-| FNever.                (* pause for ever *)
+| FNever                 (* pause for ever *)
+| FSelfDel               (* `local delete`: the thread deletes itself while it executes *)
+| FSyncKill (n : nat)    (* it starts a thread that (n levels deep) deletes it at once *)
+| FEndOn.                (* it is deleted by an endon that a thread it starts triggers *)
+
+(* one thread of a call: steps, then `local.r = thread <next level>` when there is a next level,
+   more steps, the final statement *)
+Record level := mkLevel { lpre : list step; lpost : list step; lfin : fin }.
 
 Inductive op :=
-| OCall (lbl : bool) (np : nat) (steps : list step) (f : fin) (args : list dval)
+| OCall (lbl : bool) (np : nat) (prog : list level) (args : list dval)   (* head of prog: the host-started thread *)
 | OCopy (r : N) | OReserve (r : N) | OMove (r : N) | ODestroy (r : N)
 | OAssign (r1 r2 : N) | OMoveAssign (r1 r2 : N)
 | OAdvance (dt : N) | OExecute | OReset.
 
-Definition dval_eqb (a b : dval) : bool :=
-  match a, b with
-  | DNil, DNil => true
-  | DData k i, DData k' i' => (k =? k') && (i =? i')
-  | _, _ => false
-  end.
+(* how a thread ends *)
+Inductive endv := EVal (d : dval) | ENone | ELocal.
 
 (* OP_STORE_PARAM for each declared parameter: fastIndex < NumArgs ? value(++fastIndex) : NIL *)
 Fixpoint bind (np : nat) (fast : list dval) : list dval :=
@@ -87,10 +102,12 @@ Definition eval_res (params : list dval) (r : res) : dval :=
   | RLit d => d
   | RArg O => DNil
   | RArg (S i) => nth i params DNil
+  | RLocal => DNil
   end.
 
 Definition resolve (params : list dval) (f : fin) : fin :=
   match f with
+  | FEnd RLocal => f
   | FEnd r => FEnd (RLit (eval_res params r))
   | _ => f
   end.
@@ -205,6 +222,11 @@ Definition new_pointer (h : ch) (c p : N) : ch :=
 Definition set_all (h : ch) (l : list N) (d : dval) : ch :=
   fold_left (fun h c => wr h c (VD d)) l h.
 
+(* the general loop of setValueRef: type = None; the ignored variable gets no copy *)
+Definition deliver_one (d : dval) (ign : N) (h : ch) (x : N) : ch :=
+  let h1 := wr h x (VD DNil) in
+  if x =? ign then h1 else wr h1 x (VD d).
+
 (* ScriptPointer::setValueRef(var, ignoredVar) with a plain value *)
 Definition set_value_ref (h : ch) (p : N) (d : dval) (ign : N) : ch :=
   match get (ptrs h) p with
@@ -214,7 +236,7 @@ Definition set_value_ref (h : ch) (p : N) (d : dval) (ign : N) : ch :=
                 else if c1 =? ign then wr h1 c0 (VD d)
                 else wr (wr h1 c1 (VD d)) c0 (VD d) in
       free_ptr h2 p
-  | Some l => free_ptr (set_all h (rev l) d) p
+  | Some l => free_ptr (fold_left (deliver_one d ign) (rev l) h) p
   | None => bad h
   end.
 
@@ -225,6 +247,26 @@ Definition ptr_clear (h : ch) (p : N) : ch :=
   | None => bad h
   end.
 
+(* ScriptPointer::setValueRef(var, ignoredVar) when var holds the pending pointer q:
+   type = None; *pVar = var  registers pVar with q *)
+Definition fwd_one (h : ch) (x q : N) : ch := ptr_add (wr h x (VPtr q)) q x.
+
+Definition forward_one (q ign : N) (h : ch) (x : N) : ch :=
+  let h1 := wr h x (VD DNil) in
+  if x =? ign then h1 else fwd_one h1 x q.
+
+Definition set_value_ref_fwd (h : ch) (p q ign : N) : ch :=
+  match get (ptrs h) p with
+  | Some [c0; c1] =>
+      let h1 := wr (wr h c0 (VD DNil)) c1 (VD DNil) in
+      let h2 := if c0 =? ign then fwd_one h1 c1 q
+                else if c1 =? ign then fwd_one h1 c0 q
+                else fwd_one (fwd_one h1 c1 q) c0 q in
+      free_ptr h2 p
+  | Some l => free_ptr (fold_left (forward_one q ign) (rev l) h) p
+  | None => bad h
+  end.
+
 (* ---------------------------------------------------------------- part 2: the host protocol *)
 
 Record rec := mkRec { rargs : list dval; rslot : option N }.   (* rslot: the cell after the arguments *)
@@ -232,13 +274,15 @@ Record rec := mkRec { rargs : list dval; rslot : option N }.   (* rslot: the cel
 Record heap := mkHeap {
   hc : ch;
   vms : list (N * N);        (* live thread -> its VM's m_ReturnValue cell *)
+  locs : list (N * N);       (* live thread -> its variable local.r, once assigned *)
+  tcall : list (N * N);      (* thread -> the host call (script instance) it belongs to *)
   recs : list (N * rec);     (* the host's records *)
   nrec : N;
-  ncall : N;
-  ninst : nat;               (* live script instances *)
-  tmp : N }.                 (* the stack temporary of ScriptThread::Execute(Event&) *)
+  ncall : N;                 (* next thread id *)
+  tmps : list (N * N) }.     (* the stack temporaries `returnValue` of the calls / `thread` commands
+                                in progress, innermost first, and the thread each one waits for *)
 
-Definition heap_init : heap := mkHeap ch_init [] [] 0 0 O 0.
+Definition heap_init : heap := mkHeap ch_init [] [] [] [] 0 0 [].
 
 Fixpoint lookup {A} (k : N) (l : list (N * A)) : option A :=
   match l with
@@ -258,74 +302,156 @@ Fixpoint upd {A} (k : N) (v : A) (l : list (N * A)) : list (N * A) :=
   | (k', v') :: r => if k' =? k then (k', v) :: r else (k', v') :: upd k v r
   end.
 
-(* the thread ends: r = Some d for `end d`, None for `end` / OP_DONE *)
-Definition vm_end (t : N) (r : option dval) (h : heap) : heap :=
+(* ~ScriptVM: m_ReturnValue.ClearPointer() - a VM destroyed before its thread ended resolves the
+   pending result to NIL for every holder - and then the member m_ReturnValue is destructed *)
+Definition vm_dtor (c : ch) (rc : N) : ch :=
+  let c1 := match get (cells c) rc with
+            | Some (VPtr p) => ptr_clear c p
+            | _ => c
+            end in
+  destroy c1 rc.
+
+Definition destroy_opt (c : ch) (x : option N) : ch :=
+  match x with Some k => destroy c k | None => c end.
+
+(* the thread ends (EventEnd / OP_DONE), its variables die (~Listener), the VM is destroyed *)
+Definition vm_end (t : N) (e : endv) (h : heap) : heap :=
   match lookup t (vms h) with
   | Some rc =>
-      let c1 := match get (cells (hc h)) rc with
-                | Some (VPtr p) =>
-                    match r with
-                    | Some d => set_value_ref (hc h) p d rc      (* m_ReturnValue.setPointerRef(v) *)
-                    | None => ptr_clear (hc h) p                 (* m_ReturnValue.ClearPointer() *)
+      let lr := lookup t (locs h) in
+      let c1 :=
+        match get (cells (hc h)) rc with
+        | Some (VPtr p) =>
+            match e with
+            | EVal d => set_value_ref (hc h) p d rc      (* m_ReturnValue.setPointerRef(v) *)
+            | ENone => ptr_clear (hc h) p                (* m_ReturnValue.ClearPointer() *)
+            | ELocal =>
+                match lr with
+                | Some x =>
+                    match get (cells (hc h)) x with
+                    | Some (VPtr q) => set_value_ref_fwd (hc h) p q rc
+                    | Some (VD d) => set_value_ref (hc h) p d rc
+                    | None => bad (hc h)
                     end
-                | _ => hc h
-                end in
-      mkHeap (destroy c1 rc) (del t (vms h)) (recs h) (nrec h) (ncall h) (pred (ninst h)) (tmp h)
+                | None => set_value_ref (hc h) p DNil rc  (* local.r never assigned: NIL *)
+                end
+            end
+        | _ => hc h
+        end in
+      mkHeap (vm_dtor (destroy_opt c1 lr) rc) (del t (vms h)) (del t (locs h)) (tcall h) (recs h) (nrec h)
+             (ncall h) (tmps h)
   | None => h
   end.
 
-(* the thread is deleted *)
+(* the thread is deleted while its VM is idle (parked in a wait or paused): ~ScriptThread ->
+   NotifyDelete deletes the VM at once, then ~Listener the variables *)
 Definition vm_kill (t : N) (h : heap) : heap :=
   match lookup t (vms h) with
-  | Some rc => mkHeap (destroy (hc h) rc) (del t (vms h)) (recs h) (nrec h) (ncall h) (pred (ninst h)) (tmp h)
+  | Some rc =>
+      mkHeap (destroy_opt (vm_dtor (hc h) rc) (lookup t (locs h))) (del t (vms h)) (del t (locs h)) (tcall h)
+             (recs h) (nrec h) (ncall h) (tmps h)
   | None => h
   end.
+
+(* the thread is deleted while its VM executes on the native stack (it deletes itself, or a thread
+   it started deletes it): NotifyDelete only marks the VM (state Destroyed) and unlinks it, the
+   thread object and its variables die ... *)
+Definition vm_mark (t : N) (h : heap) : heap * option N :=
+  match lookup t (vms h) with
+  | Some rc =>
+      (mkHeap (destroy_opt (hc h) (lookup t (locs h))) (del t (vms h)) (del t (locs h)) (tcall h)
+              (recs h) (nrec h) (ncall h) (tmps h), Some rc)
+  | None => (h, None)
+  end.
+
+(* ... and the tail of ScriptVM::Execute deletes the VM when the interpreter loop has returned:
+   only then ~ScriptVM resolves the pending result *)
+Definition vm_reap (rc : N) (h : heap) : heap :=
+  mkHeap (vm_dtor (hc h) rc) (vms h) (locs h) (tcall h) (recs h) (nrec h) (ncall h) (tmps h).
+
+Definition vm_kill_exec (t : N) (h : heap) : heap :=
+  let '(h1, o) := vm_mark t h in
+  match o with Some rc => vm_reap rc h1 | None => h1 end.
+
+(* a new thread of the call [call] whose result the caller will read: the VM (m_ReturnValue), the
+   caller's temporary returnValue.newPointer(), m_ReturnValue = returnValue *)
+Definition thread_begin (call : N) (h : heap) : heap * N :=
+  let t := ncall h in
+  let '(c1, rc) := alloc (hc h) (VD DNil) in
+  let '(c2, tm) := alloc c1 (VD DNil) in
+  let c3 := new_pointer c2 tm t in
+  let c4 := copy_assign c3 rc tm in
+  (mkHeap c4 (vms h ++ [(t, rc)]) (locs h) (tcall h ++ [(t, call)]) (recs h) (nrec h) (t + 1)
+          ((tm, t) :: tmps h), t).
 
 (* CreateScriptThread + the beginning of ScriptThread::Execute(Event&) *)
 Definition call_begin (lbl : bool) (h : heap) : heap * N :=
-  let t := ncall h in
-  if lbl then
-    let '(c1, rc) := alloc (hc h) (VD DNil) in              (* new ScriptVM: m_ReturnValue *)
-    let '(c2, tm) := alloc c1 (VD DNil) in                  (* ScriptVariable returnValue *)
-    let c3 := new_pointer c2 tm t in                        (* returnValue.newPointer(2) *)
-    let c4 := copy_assign c3 rc tm in                       (* m_ReturnValue = returnValue *)
-    (mkHeap c4 (vms h ++ [(t, rc)]) (recs h) (nrec h) (t + 1) (S (ninst h)) tm, t)
+  if lbl then thread_begin (ncall h) h
   else
-    (* new ScriptClass; FindLabel fails; delete scriptClass; throw *)
-    (mkHeap (hc h) (vms h) (recs h) (nrec h) (t + 1) (pred (S (ninst h))) (tmp h), t).
+    (* new ScriptClass; FindLabel fails; delete scriptClass; throw: only the id is used up *)
+    (mkHeap (hc h) (vms h) (locs h) (tcall h) (recs h) (nrec h) (ncall h + 1) (tmps h), ncall h).
+
+Definition call_of (t : N) (h : heap) : N :=
+  match lookup t (tcall h) with Some c => c | None => t end.
+
+(* `local.r = thread sub`, before the sub-thread runs: Listener::CreateReturnThread *)
+Definition spawn (parent : N) (h : heap) : heap * N := thread_begin (call_of parent h) h.
+
+(* ... and after it returned: ev.AddValue(returnValue), the value reaches the variable local.r,
+   the temporary dies.  (The guard always holds in the engine: the variable is assigned once, by
+   the thread that started the younger sub-thread; otherwise the value is dropped.) *)
+Definition spawned (parent child : N) (h : heap) : heap :=
+  match tmps h with
+  | (tm, u) :: rest =>
+      if (parent <? u) && match lookup parent (locs h) with None => true | Some _ => false end then
+        let '(c1, lr) := copy_construct (hc h) tm in
+        mkHeap (destroy c1 tm) (vms h) (locs h ++ [(parent, lr)]) (tcall h) (recs h) (nrec h) (ncall h) rest
+      else
+        mkHeap (destroy (hc h) tm) (vms h) (locs h) (tcall h) (recs h) (nrec h) (ncall h) rest
+  | [] => h
+  end.
 
 (* the end of ScriptThread::Execute(Event&); the Event becomes the next record *)
 Definition call_finish (found : bool) (t : N) (args : list dval) (h : heap) : heap :=
   if found then
-    match get (cells (hc h)) (tmp h) with
-    | Some (VD DNil) =>
-        mkHeap (destroy (hc h) (tmp h)) (vms h) (recs h ++ [(nrec h, mkRec args None)]) (nrec h + 1)
-               (ncall h) (ninst h) (tmp h)
-    | Some _ =>
-        let '(c1, sc) := move_construct (hc h) (tmp h) in   (* ev.AddValue(std::move(returnValue)) *)
-        mkHeap (destroy c1 (tmp h)) (vms h) (recs h ++ [(nrec h, mkRec args (Some sc))]) (nrec h + 1)
-               (ncall h) (ninst h) (tmp h)
-    | None =>
-        mkHeap (bad (hc h)) (vms h) (recs h ++ [(nrec h, mkRec args None)]) (nrec h + 1)
-               (ncall h) (ninst h) (tmp h)
+    match tmps h with
+    | (tm, _) :: rest =>
+        match get (cells (hc h)) tm with
+        | Some (VD DNil) =>
+            mkHeap (destroy (hc h) tm) (vms h) (locs h) (tcall h) (recs h ++ [(nrec h, mkRec args None)]) (nrec h + 1)
+                   (ncall h) rest
+        | Some _ =>
+            let '(c1, sc) := move_construct (hc h) tm in   (* ev.AddValue(std::move(returnValue)) *)
+            mkHeap (destroy c1 tm) (vms h) (locs h) (tcall h) (recs h ++ [(nrec h, mkRec args (Some sc))]) (nrec h + 1)
+                   (ncall h) rest
+        | None =>
+            mkHeap (bad (hc h)) (vms h) (locs h) (tcall h) (recs h ++ [(nrec h, mkRec args None)]) (nrec h + 1)
+                   (ncall h) rest
+        end
+    | [] =>   (* not reached: a call in progress has its temporary *)
+        mkHeap (hc h) (vms h) (locs h) (tcall h) (recs h ++ [(nrec h, mkRec args None)]) (nrec h + 1)
+               (ncall h) []
     end
   else
-    mkHeap (hc h) (vms h) (recs h ++ [(nrec h, mkRec args None)]) (nrec h + 1) (ncall h) (ninst h) (tmp h).
+    mkHeap (hc h) (vms h) (locs h) (tcall h) (recs h ++ [(nrec h, mkRec args None)]) (nrec h + 1) (ncall h)
+           (tmps h).
 
 Definition thread_alive (t : N) (h : heap) : bool :=
   match lookup t (vms h) with Some _ => true | None => false end.
 
 Definition with_hc (h : heap) (c : ch) : heap :=
-  mkHeap c (vms h) (recs h) (nrec h) (ncall h) (ninst h) (tmp h).
+  mkHeap c (vms h) (locs h) (tcall h) (recs h) (nrec h) (ncall h) (tmps h).
+
+Definition with_recs (h : heap) (c : ch) (l : list (N * rec)) (n : N) : heap :=
+  mkHeap c (vms h) (locs h) (tcall h) l n (ncall h) (tmps h).
 
 (* Event(const Event&) *)
 Definition rec_copy (r : N) (h : heap) : heap :=
   match lookup r (recs h) with
-  | Some (mkRec a None) =>
-      mkHeap (hc h) (vms h) (recs h ++ [(nrec h, mkRec a None)]) (nrec h + 1) (ncall h) (ninst h) (tmp h)
+  | Some (mkRec a None) => with_recs h (hc h) (recs h ++ [(nrec h, mkRec a None)]) (nrec h + 1)
   | Some (mkRec a (Some c)) =>
       let '(c1, c') := copy_construct (hc h) c in
-      mkHeap c1 (vms h) (recs h ++ [(nrec h, mkRec a (Some c'))]) (nrec h + 1) (ncall h) (ninst h) (tmp h)
+      with_recs h c1 (recs h ++ [(nrec h, mkRec a (Some c'))]) (nrec h + 1)
   | None => h
   end.
 
@@ -334,7 +460,7 @@ Definition rec_reserve (r : N) (h : heap) : heap :=
   match lookup r (recs h) with
   | Some (mkRec a (Some c)) =>
       let '(c1, c') := copy_construct (hc h) c in
-      mkHeap (destroy c1 c) (vms h) (upd r (mkRec a (Some c')) (recs h)) (nrec h) (ncall h) (ninst h) (tmp h)
+      with_recs h (destroy c1 c) (upd r (mkRec a (Some c')) (recs h)) (nrec h)
   | _ => h
   end.
 
@@ -343,10 +469,8 @@ Definition rec_move (r : N) (h : heap) : heap := h.
 
 Definition rec_destroy (r : N) (h : heap) : heap :=
   match lookup r (recs h) with
-  | Some (mkRec a (Some c)) =>
-      mkHeap (destroy (hc h) c) (vms h) (del r (recs h)) (nrec h) (ncall h) (ninst h) (tmp h)
-  | Some (mkRec a None) =>
-      mkHeap (hc h) (vms h) (del r (recs h)) (nrec h) (ncall h) (ninst h) (tmp h)
+  | Some (mkRec a (Some c)) => with_recs h (destroy (hc h) c) (del r (recs h)) (nrec h)
+  | Some (mkRec a None) => with_recs h (hc h) (del r (recs h)) (nrec h)
   | None => h
   end.
 
@@ -370,9 +494,9 @@ Definition rec_massign (r1 r2 : N) (h : heap) : heap :=
   | _, _ => h
   end.
 
-(* ScriptMaster::Reset: every script instance (its threads, their VMs) is destroyed *)
+(* ScriptMaster::Reset: every script instance is destroyed, and with it its threads and their VMs *)
 Definition heap_reset (h : heap) : heap :=
-  mkHeap (fold_left (fun c x => destroy c (snd x)) (vms h) (hc h)) [] (recs h) (nrec h) (ncall h) O (tmp h).
+  fold_left (fun h (x : N * N) => vm_kill (fst x) h) (vms h) h.
 
 Inductive tok := TD (d : dval) | TPend | TDead.
 
@@ -386,20 +510,33 @@ Definition cell_tok (c : ch) (x : N) : tok :=
 Definition rec_toks (c : ch) (r : rec) : list tok :=
   map TD (rargs r) ++ match rslot r with Some x => [cell_tok c x] | None => [] end.
 
+(* the script instances that still have a thread: the distinct calls of the live threads *)
+Fixpoint dedup (l : list N) : list N :=
+  match l with
+  | [] => []
+  | x :: r => if existsb (N.eqb x) r then dedup r else x :: dedup r
+  end.
+
+Definition instances (live : list N) (tc : list (N * N)) : nat :=
+  length (dedup (map (fun t => match lookup t tc with Some c => c | None => t end) live)).
+
 Definition heap_obs (h : heap) : list (N * list tok) * nat * bool :=
-  (map (fun x => (fst x, rec_toks (hc h) (snd x))) (recs h), ninst h, ub (hc h)).
+  (map (fun x => (fst x, rec_toks (hc h) (snd x))) (recs h), instances (map fst (vms h)) (tcall h),
+   ub (hc h)).
 
 (* ---------------------------------------------------------------- part 3: the scheduler *)
 
+Record tstate := mkTS { tpre : list step; tsubs : list level; tpost : list step; tfin : fin }.
+
 Inductive thr :=
-| TMain (t : N) (steps : list step) (f : fin)
+| TMain (t : N) (ts : tstate)
 | THelper (target : N) (kill : bool).
 
 Record waiter := mkW { wdue : N; wseq : N; wthr : thr }.
 
 Record sched := mkSched {
   pend : list waiter;                          (* threads in a timed wait *)
-  paused : list (N * (list step * fin));       (* paused main threads and what they still run *)
+  paused : list (N * tstate);                  (* paused threads and what they still run *)
   frame : N;                                   (* the engine's frame time *)
   clock : N;                                   (* the host's clock *)
   sseq : N }.
@@ -409,8 +546,8 @@ Definition sched_init : sched := mkSched [] [] 0 0 0.
 Definition add_wait (s : sched) (d : N) (th : thr) : sched :=
   mkSched (pend s ++ [mkW (frame s + d) (sseq s) th]) (paused s) (frame s) (clock s) (sseq s + 1).
 
-Definition pause (s : sched) (t : N) (steps : list step) (f : fin) : sched :=
-  mkSched (pend s) (paused s ++ [(t, (steps, f))]) (frame s) (clock s) (sseq s).
+Definition pause (s : sched) (t : N) (ts : tstate) : sched :=
+  mkSched (pend s) (paused s ++ [(t, ts)]) (frame s) (clock s) (sseq s).
 
 Definition w_ltb (a c : waiter) : bool :=
   (wdue a <? wdue c) || ((wdue a =? wdue c) && (wseq a <? wseq c)).
@@ -425,7 +562,7 @@ Definition remove_w (k : N) (l : list waiter) : list waiter :=
   filter (fun x => negb (N.eqb (wseq x) k)) l.
 
 Definition is_main (t : N) (w : waiter) : bool :=
-  match wthr w with TMain t' _ _ => t' =? t | THelper _ _ => false end.
+  match wthr w with TMain t' _ => t' =? t | THelper _ _ => false end.
 
 (* what the records / the observation of one host operation look like *)
 Inductive callobs := CNone | CNoLabel | COk (alive : bool) (params : list dval).
@@ -438,11 +575,27 @@ Record obs := mkObs {
   ohang : bool;         (* the resume loop ran out of fuel *)
   oub : bool }.
 
+Definition w_steps (l : list step) : nat :=
+  fold_right (fun x acc => (match x with SWait _ => 1 | SPause _ => 2 end + acc)%nat) O l.
+Definition w_fin (f : fin) : nat :=
+  match f with FKill _ => 2 | FKillTimed _ => 3 | _ => O end.
+Definition w_level (l : level) : nat := (w_steps (lpre l) + w_steps (lpost l) + w_fin (lfin l))%nat.
+Definition w_ts (ts : tstate) : nat :=
+  (w_steps (tpre ts) + fold_right (fun l acc => (w_level l + acc)%nat) O (tsubs ts) + w_steps (tpost ts) + w_fin (tfin ts))%nat.
+Definition w_thr (th : thr) : nat :=
+  match th with TMain _ ts => S (w_ts ts) | THelper _ _ => 2 end.
+Definition weight (s : sched) : nat :=
+  (fold_right (fun w acc => w_thr (wthr w) + acc) O (pend s) +
+   fold_right (fun x acc => w_ts (snd x) + acc) O (paused s))%nat.
+
 Section Engine.
   Variable H : Type.
   Variable h_init : H.
-  Variable h_end : N -> option dval -> H -> H.
-  Variable h_kill : N -> H -> H.
+  Variable h_end : N -> endv -> H -> H.
+  Variable h_kill : N -> H -> H.            (* the thread is deleted while it is parked *)
+  Variable h_killx : N -> H -> H.           (* ... while it executes *)
+  Variable h_spawn : N -> H -> H * N.
+  Variable h_spawned : N -> N -> H -> H.
   Variable h_begin : bool -> H -> H * N.
   Variable h_finish : bool -> N -> list dval -> H -> H.
   Variable h_alive : N -> H -> bool.
@@ -451,32 +604,51 @@ Section Engine.
   Variable h_reset : H -> H.
   Variable h_obs : H -> list (N * list tok) * nat * bool.
 
-  (* run the main thread t until it waits, pauses or ends *)
-  Definition run_main (s : sched) (h : H) (t : N) (steps : list step) (f : fin) : sched * H :=
+  (* the thread t runs steps and its final statement (no sub-thread left to start) *)
+  Definition run_simple (s : sched) (h : H) (t : N) (steps : list step) (f : fin) : sched * H :=
     match steps with
-    | SWait d :: rest => (add_wait s d (TMain t rest f), h)
+    | SWait d :: rest => (add_wait s d (TMain t (mkTS rest [] [] f)), h)
     | SPause d :: rest =>
         (* `thread helper local`: the helper runs to its `wait d`; then `pause` *)
-        (pause (add_wait s d (THelper t false)) t rest f, h)
+        (pause (add_wait s d (THelper t false)) t (mkTS rest [] [] f), h)
     | [] =>
         match f with
-        | FEnd (RLit d) => (s, h_end t (Some d) h)
-        | FEnd (RArg _) => (s, h_end t (Some DNil) h)      (* not reached: resolved at the call *)
-        | FEndNone | FFall => (s, h_end t None h)
-        | FKill d => (pause (add_wait s d (THelper t true)) t [] FNever, h)
-        | FKillTimed d => (add_wait (add_wait s d (THelper t true)) 50 (TMain t [] FNever), h)
-        | FNever => (pause s t [] FNever, h)
+        | FEnd (RLit d) => (s, h_end t (EVal d) h)
+        | FEnd RLocal => (s, h_end t ELocal h)
+        | FEnd (RArg _) => (s, h_end t (EVal DNil) h)      (* not reached: resolved at the start *)
+        | FEndNone | FFall => (s, h_end t ENone h)
+        | FKill d => (pause (add_wait s d (THelper t true)) t (mkTS [] [] [] FNever), h)
+        | FKillTimed d => (add_wait (add_wait s d (THelper t true)) 50 (TMain t (mkTS [] [] [] FNever)), h)
+        | FNever => (pause s t (mkTS [] [] [] FNever), h)
+        | FSelfDel | FSyncKill _ | FEndOn => (s, h_killx t h)   (* the threads it starts end at once *)
+        end
+    end.
+
+  (* run the thread t until it waits, pauses or ends; `local.r = thread sub` runs the sub-thread
+     nested (until it suspends or ends) and then goes on *)
+  Fixpoint run_st (s : sched) (h : H) (t : N) (pre : list step) (subs : list level)
+                  (post : list step) (f : fin) {struct subs} : sched * H :=
+    match pre with
+    | SWait d :: rest => (add_wait s d (TMain t (mkTS rest subs post f)), h)
+    | SPause d :: rest => (pause (add_wait s d (THelper t false)) t (mkTS rest subs post f), h)
+    | [] =>
+        match subs with
+        | l :: more =>
+            let '(h1, c) := h_spawn t h in
+            let '(s2, h2) := run_st s h1 c (lpre l) more (lpost l) (resolve [] (lfin l)) in
+            run_simple s2 (h_spawned t c h2) t post f
+        | [] => run_simple s h t post f
         end
     end.
 
   Definition run_thr (s : sched) (h : H) (th : thr) : sched * H :=
     match th with
-    | TMain t steps f => run_main s h t steps f
+    | TMain t ts => run_st s h t (tpre ts) (tsubs ts) (tpost ts) (tfin ts)
     | THelper t false =>
         (* `t wait 0` on the paused thread: StartTiming(0) *)
         match lookup t (paused s) with
-        | Some (steps, f) =>
-            (add_wait (mkSched (pend s) (del t (paused s)) (frame s) (clock s) (sseq s)) 0 (TMain t steps f), h)
+        | Some ts =>
+            (add_wait (mkSched (pend s) (del t (paused s)) (frame s) (clock s) (sseq s)) 0 (TMain t ts), h)
         | None => (s, h)
         end
     | THelper t true =>
@@ -500,16 +672,6 @@ Section Engine.
              end
     end.
 
-  Definition w_steps (l : list step) : nat :=
-    fold_right (fun x acc => (match x with SWait _ => 1 | SPause _ => 2 end + acc)%nat) O l.
-  Definition w_fin (f : fin) : nat :=
-    match f with FKill _ => 2 | FKillTimed _ => 3 | _ => O end.
-  Definition w_thr (th : thr) : nat :=
-    match th with TMain _ l f => S (w_steps l + w_fin f) | THelper _ _ => 2 end.
-  Definition weight (s : sched) : nat :=
-    (fold_right (fun w acc => w_thr (wthr w) + acc) O (pend s) +
-     fold_right (fun x acc => w_steps (fst (snd x)) + w_fin (snd (snd x)) + acc) O (paused s))%nat.
-
   Definition mk_obs (c : callobs) (s : sched) (h : H) (ok : bool) : obs :=
     let '(rs, n, u) := h_obs h in
     mkObs c rs n (length (pend s) + length (paused s)) (negb ok) u.
@@ -517,11 +679,12 @@ Section Engine.
   Definition step_op (st : sched * H) (o : op) : (sched * H) * obs :=
     let '(s, h) := st in
     match o with
-    | OCall lbl np steps f args =>
+    | OCall lbl np prog args =>
         let '(h1, t) := h_begin lbl h in
         if lbl then
           let params := bind np args in                       (* SetFastData + OP_STORE_PARAM *)
-          let '(s1, h2) := run_main s h1 t steps (resolve params f) in
+          let l0 := match prog with l :: _ => l | [] => mkLevel [] [] FFall end in
+          let '(s1, h2) := run_st s h1 t (lpre l0) (tl prog) (lpost l0) (resolve params (lfin l0)) in
           let '(s2, h3, ok) := resume (weight s1) s1 h2 in    (* ScriptExecuteInternal: ExecuteRunning *)
           let h4 := h_finish true t args h3 in
           ((s2, h4), mk_obs (COk (h_alive t h4) params) s2 h4 ok)
@@ -557,5 +720,5 @@ Section Engine.
 End Engine.
 
 Definition run (ops : list op) : list obs :=
-  grun heap heap_init vm_end vm_kill call_begin call_finish thread_alive
+  grun heap heap_init vm_end vm_kill vm_kill_exec spawn spawned call_begin call_finish thread_alive
        rec_copy rec_reserve rec_move rec_destroy rec_assign rec_massign heap_reset heap_obs ops.
